@@ -731,3 +731,263 @@ Proof.
   - apply (memos_ok_G0 cap fmt errs0).
   - apply run_memos_ok; auto. apply (memos_ok_G0 cap fmt errs0).
 Qed.
+
+(* ------------------------------------------------------------------------------------- *)
+(* any property of the reporting cells that report_error preserves is preserved by every call *)
+Lemma memo_call_state {K V S} (keqb : K -> K -> bool) cap (f : K -> S -> S * res V) k m s :
+  snd (fst (memo_call keqb cap f k (m, s))) = s \/ snd (fst (memo_call keqb cap f k (m, s))) = fst (f k s).
+Proof.
+  unfold memo_call. destruct (m_lookup keqb k (memory m)); [left; reflexivity|].
+  destruct (evict keqb cap m) as [m1 ev]. destruct ev as [u| | |]; try (left; reflexivity).
+  destruct (f k s) as [s' r]. destruct r; right; reflexivity.
+Qed.
+
+Section ErrInv.
+  Variable P : errs -> Prop.
+  Hypothesis P_report : forall x e, P e -> P (fst (report_error x e)).
+
+  Lemma ll_report_P via x e : P e -> P (fst (ll_report via x e)).
+  Proof. destruct via; cbn [ll_report fst]; auto. Qed.
+
+  Lemma report_all_P xs : forall e, P e -> P (fst (report_all xs e)).
+  Proof.
+    induction xs as [|x r IH]; intros e He; cbn [report_all fst]; auto.
+    pose proof (P_report x e He) as H1. destruct (report_error x e) as [e1 u]. cbn [fst] in H1.
+    destruct u; cbn [fst]; auto.
+  Qed.
+
+  Lemma ll_value_P via cell v : forall e, P e -> P (fst (ll_value via cell v e)).
+  Proof.
+    induction v as [|p r IH]; intros e He; cbn [ll_value fst]; auto.
+    destruct p as [s|m].
+    - specialize (IH e He). destruct (ll_value via cell r e) as [e1 rr]. cbn [fst] in IH.
+      apply (lift_res_fst e1 rr _ P); auto.
+    - destruct (cell_get cell m).
+      + specialize (IH e He). destruct (ll_value via cell r e) as [e1 rr]. cbn [fst] in IH.
+        apply (lift_res_fst e1 rr _ P); auto.
+      + pose proof (ll_report_P via (E_UNDEF, m) e He) as H0.
+        destruct (ll_report via (E_UNDEF, m) e) as [e0 u]. cbn [fst] in H0.
+        apply (lift_res_fst e0 u _ P); auto. intros _ _.
+        specialize (IH e0 H0). destruct (ll_value via cell r e0) as [e1 rr]. cbn [fst] in IH.
+        apply (lift_res_fst e1 rr _ P); auto.
+  Qed.
+
+  Lemma ll_fields_P via cell fs : forall e, P e -> P (fst (ll_fields via cell fs e)).
+  Proof.
+    induction fs as [|[n v] r IH]; intros e He; cbn [ll_fields fst]; auto.
+    pose proof (ll_value_P via cell v e He) as H1. destruct (ll_value via cell v e) as [e1 pv]. cbn [fst] in H1.
+    apply (lift_res_fst e1 pv _ P); auto. intros parts _.
+    specialize (IH e1 H1). destruct (ll_fields via cell r e1) as [e2 rr]. cbn [fst] in IH.
+    apply (lift_res_fst e2 rr _ P); auto.
+  Qed.
+
+  Lemma ll_command_P via cell c e : P e -> P (snd (fst (ll_command via cell c e))).
+  Proof.
+    intro He. destruct c as [name v|v|typ key fs| |]; cbn [ll_command fst snd]; auto.
+    - pose proof (ll_value_P via cell v e He) as H1. destruct (ll_value via cell v e) as [e1 pv]. cbn [fst] in H1.
+      apply (lift_res_fst (cell, e1) pv _ (fun x => P (snd x))); auto.
+    - pose proof (ll_value_P via cell v e He) as H1. destruct (ll_value via cell v e) as [e1 pv]. cbn [fst] in H1.
+      apply (lift_res_fst (cell, e1) pv _ (fun x => P (snd x))); auto.
+    - pose proof (ll_fields_P via cell fs e He) as H1. destruct (ll_fields via cell fs e) as [e1 pf]. cbn [fst] in H1.
+      apply (lift_res_fst (cell, e1) pf _ (fun x => P (snd x))); auto.
+    - pose proof (ll_report_P via (E_SYNTAX, []) e He) as H1. destruct (ll_report via (E_SYNTAX, []) e) as [e1 u]. cbn [fst] in H1.
+      apply (lift_res_fst (cell, e1) u _ (fun x => P (snd x))); auto.
+  Qed.
+
+  Lemma add_persons_P role names : forall en e, P e -> P (fst (add_persons role names en e)).
+  Proof.
+    induction names as [|nm r IH]; intros en e He; cbn [add_persons fst]; auto.
+    apply (lift_res_fst e (person_of_string nm) _ P); auto. intros pr _.
+    assert (H1 : P (fst (if (snd pr : bool) then report_error (E_NAME, nm) e else (e, Ok tt)))) by (destruct (snd pr); cbn [fst]; auto).
+    destruct (if (snd pr : bool) then report_error (E_NAME, nm) e else (e, Ok tt)) as [e1 u]. cbn [fst] in H1.
+    apply (lift_res_fst e1 u _ P); auto.
+  Qed.
+
+  Lemma process_fields_P key fs : forall seen en e, P e -> P (fst (process_fields key fs seen en e)).
+  Proof.
+    induction fs as [|[n parts] r IH]; intros seen en e He; cbn [process_fields fst]; auto.
+    destruct (existsb (str_eqb (lower n)) seen).
+    - pose proof (P_report (E_DUPFIELD, n) e He) as H1. destruct (report_error (E_DUPFIELD, n) e) as [e1 u]. cbn [fst] in H1.
+      apply (lift_res_fst e1 u _ P); auto.
+    - destruct (is_person_field n); auto.
+      apply (lift_res_fst e (split_name_list (normalize_whitespace (concat parts))) _ P); auto. intros names _.
+      pose proof (add_persons_P n names en e He) as H1. destruct (add_persons n names en e) as [e1 ren]. cbn [fst] in H1.
+      apply (lift_res_fst e1 ren _ P); auto.
+  Qed.
+
+  Lemma process_item_P rd it e : P e -> P (snd (fst (process_item rd it e))).
+  Proof.
+    intro He. destruct it as [n p|p|t k f]; cbn [process_item fst snd]; auto.
+    pose proof (process_fields_P k f [] (mkEntry (lower t) [] []) e He) as H1.
+    destruct (process_fields k f [] (mkEntry (lower t) [] []) e) as [e1 ren]. cbn [fst] in H1.
+    apply (lift_res_fst (rd, e1) ren _ (fun x => P (snd x))); auto. intros en _.
+    destruct (has_key_ci k (r_entries rd)); auto.
+    pose proof (P_report (E_REPEATED, k) e1 H1) as H2. destruct (report_error (E_REPEATED, k) e1) as [e2 u]. cbn [fst] in H2.
+    apply (lift_res_fst (rd, e2) u _ (fun x => P (snd x))); auto.
+  Qed.
+
+  Lemma feed_P file : forall cell rd e, P e -> P (snd (fst (feed cell rd file e))).
+  Proof.
+    induction file as [|c r IH]; intros cell rd e He; cbn [feed fst snd]; auto.
+    pose proof (ll_command_P true cell c e He) as H1.
+    destruct (ll_command true cell c e) as [[cell1 e1] ri]. cbn [fst snd] in H1.
+    apply (lift_res_fst (cell1, rd, e1) ri _ (fun x => P (snd x))); auto.
+    intros oi _. destruct oi as [it|]; [|apply IH; auto].
+    pose proof (process_item_P rd it e1 H1) as H2.
+    destruct (process_item rd it e1) as [[rd1 e2] u]. cbn [fst snd] in H2.
+    apply (lift_res_fst (cell1, rd1, e2) u _ (fun x => P (snd x))); auto.
+  Qed.
+
+  Lemma feed_files_P files : forall cell rd e, P e -> P (snd (fst (feed_files cell rd files e))).
+  Proof.
+    induction files as [|f r IH]; intros cell rd e He; cbn [feed_files fst snd]; auto.
+    pose proof (feed_P f cell rd e He) as H1.
+    destruct (feed cell rd f e) as [[[c1 rd1] e1] u]. cbn [fst snd] in H1.
+    apply (lift_res_fst (c1, rd1, e1) u _ (fun x => P (snd x))); auto.
+  Qed.
+
+  Lemma lowlevel_P via file : forall cell e, P e -> P (snd (fst (lowlevel via cell file e))).
+  Proof.
+    induction file as [|c r IH]; intros cell e He; cbn [lowlevel fst snd]; auto.
+    pose proof (ll_command_P via cell c e He) as H1.
+    destruct (ll_command via cell c e) as [[cell1 e1] ri]. cbn [fst snd] in H1.
+    apply (lift_res_fst (cell1, e1) ri _ (fun x => P (snd x))); auto. intros oi _.
+    specialize (IH cell1 e1 H1). destruct (lowlevel via cell1 r e1) as [ce2 rr]. cbn [fst] in IH.
+    apply (lift_res_fst ce2 rr _ (fun x => P (snd x))); auto.
+  Qed.
+
+  Lemma format_name_f_P cap fmt k ms e : P e -> P (snd (fst (format_name_f cap fmt k (ms, e)))).
+  Proof.
+    intro He. destruct k as [[names n] format]. unfold format_name_f.
+    pose proof (memo_call_state str_eqb cap split_names_f names ms e) as Hs.
+    destruct (memo_call str_eqb cap split_names_f names (ms, e)) as [[ms1 e1] r]. cbn [fst snd] in Hs.
+    assert (H1 : P e1) by (destruct Hs as [Hs|Hs]; rewrite Hs; auto).
+    apply (lift_res_fst (ms1, e1) r _ (fun x => P (snd x))); auto. intros sp _. cbn [snd].
+    destruct (Z.leb 1 n && Z.leb n (Z.of_nat (length sp)))%bool; auto.
+    destruct (fmt (nth (Z.to_nat (n - 1)) sp []) format) as [reps v].
+    pose proof (report_all_P reps e1 H1) as H2. destruct (report_all reps e1) as [e2 u]. cbn [fst] in H2.
+    apply (lift_res_fst (ms1, e2) u _ (fun x => P (snd x))); auto.
+  Qed.
+
+  Lemma format_call_P cap fmt k mf ms e : P e ->
+    P (snd (snd (fst (memo_call nkey_eqb cap (format_name_f cap fmt) k (mf, (ms, e)))))).
+  Proof.
+    intro He. destruct (memo_call_state nkey_eqb cap (format_name_f cap fmt) k mf (ms, e)) as [Hs|Hs]; rewrite Hs; auto.
+    apply format_name_f_P; auto.
+  Qed.
+
+  Lemma bst_calls_P cap fmt ks : forall mf ms e, P e -> P (snd (snd (fst (bst_calls cap fmt ks (mf, (ms, e)))))).
+  Proof.
+    induction ks as [|k r IH]; intros mf ms e He; cbn [bst_calls fst snd]; auto.
+    pose proof (format_call_P cap fmt k mf ms e He) as H1.
+    destruct (memo_call nkey_eqb cap (format_name_f cap fmt) k (mf, (ms, e))) as [[mf1 [ms1 e1]] v]. cbn [fst snd] in H1.
+    apply (lift_res_fst (mf1, (ms1, e1)) v _ (fun x => P (snd (snd x)))); auto. intros s _.
+    specialize (IH mf1 ms1 e1 H1). destruct (bst_calls cap fmt r (mf1, (ms1, e1))) as [st2 rr]. cbn [fst] in IH.
+    apply (lift_res_fst st2 rr _ (fun x => P (snd (snd x)))); auto.
+  Qed.
+
+  Lemma exec_P cap fmt g o : (forall b, o = OSetStrict b -> P (set_strict b (g_err g))) ->
+    P (g_err g) -> P (g_err (fst (exec cap fmt g o))).
+  Proof.
+    intros P_strict He. destruct o as [m|r file|m files|src file|names n format|calls|b]; cbn [exec].
+    - unfold new_reader. cbn [fst g_err]. auto.
+    - destruct (nth_error (g_readers g) r) as [rd|]; [|auto].
+      pose proof (feed_P file (h_get (g_heap g) (r_cell rd)) rd (g_err g) He) as H1.
+      destruct (feed _ rd file (g_err g)) as [[[c1 rd1] e1] u]. cbn [fst snd g_err] in *. auto.
+    - pose proof (feed_files_P files (new_macros (g_heap g) m) (mkReader 0 [] []) (g_err g) He) as H1.
+      destruct (feed_files _ _ files (g_err g)) as [[[c2 rd2] e2] u]. cbn [fst snd g_err] in *. auto.
+    - destruct (match src with None => Some 0 | Some r => _ end) as [i|]; [|auto].
+      pose proof (lowlevel_P false file (h_get (g_heap g) i) (g_err g) He) as H1.
+      destruct (lowlevel false _ file (g_err g)) as [[cell1 e1] rr]. cbn [fst snd g_err] in *. auto.
+    - pose proof (format_call_P cap fmt (names, n, format) (g_mf g) (g_ms g) (g_err g) He) as H1.
+      destruct (memo_call nkey_eqb cap (format_name_f cap fmt) (names, n, format) _) as [[mf1 [ms1 e1]] v].
+      cbn [fst snd g_err] in *. auto.
+    - pose proof (bst_calls_P cap fmt calls (g_mf g) (g_ms g) (g_err g) He) as H1.
+      destruct (bst_calls cap fmt calls _) as [[mf1 [ms1 e1]] v]. cbn [fst snd g_err] in *. auto.
+    - cbn [fst g_err]. apply P_strict. reflexivity.
+  Qed.
+End ErrInv.
+
+(* after any history -- failed runs inside capture() blocks included -- normal reporting is in
+   force: errors.captured_errors is None *)
+Lemma captured_none_report x e : e_captured e = None -> e_captured (fst (report_error x e)) = None.
+Proof. intro H. unfold report_error. rewrite H. destruct (e_strict e); cbn [fst e_captured]; auto. Qed.
+
+Lemma step_captured_none cap fmt g co : e_captured (g_err g) = None -> e_captured (g_err (fst (step cap fmt g co))) = None.
+Proof.
+  intro H. destruct co as [cpt o]. unfold step. destruct cpt.
+  - destruct (exec cap fmt _ o) as [g1 v]. cbn [fst with_err g_err]. reflexivity.
+  - pose proof (exec_P (fun e => e_captured e = None) captured_none_report cap fmt
+                  (with_err g (clear_stderr (g_err g))) o (fun b _ => H) H) as H1.
+    destruct (exec cap fmt _ o) as [g1 v]. cbn [fst] in *. exact H1.
+Qed.
+
+Lemma run_captured_none cap fmt cos : forall g, e_captured (g_err g) = None -> e_captured (g_err (final cap fmt g cos)) = None.
+Proof.
+  unfold final. induction cos as [|co r IH]; intros g H; cbn [run fst]; auto.
+  pose proof (step_captured_none cap fmt g co H) as H1.
+  destruct (step cap fmt g co) as [g1 out]. cbn [fst] in H1. specialize (IH g1 H1).
+  destruct (run cap fmt g1 r) as [g2 outs]. exact IH.
+Qed.
+
+(* the strict flag changes only through set_strict_mode: a history without OSetStrict leaves it on *)
+Lemma strict_report x e : e_strict (fst (report_error x e)) = e_strict e.
+Proof. unfold report_error. destruct (e_captured e); [reflexivity|]. destruct (e_strict e) eqn:E; cbn [fst e_strict]; auto. Qed.
+
+(* ------------------------------------------------------------------------------------- *)
+(* in the default (strict) reporting mode the reporting cells never change at all *)
+Definition quiet_cells (e : errs) : Prop := e_strict e = true /\ e_code e = 0%Z /\ e_stderr e = [].
+
+Lemma quiet_cells_report x e : quiet_cells e -> quiet_cells (fst (report_error x e)).
+Proof.
+  intros (H1 & H2 & H3). unfold report_error. destruct (e_captured e); cbn [fst]; [repeat split; auto|].
+  rewrite H1. cbn [fst]. repeat split; auto.
+Qed.
+
+Definition keeps_strict (o : op) : Prop := match o with OSetStrict false => False | _ => True end.
+
+Lemma step_quiet_cells cap fmt g co : keeps_strict (snd co) -> quiet_cells (g_err g) -> quiet_cells (g_err (fst (step cap fmt g co))).
+Proof.
+  intros Hk (H1 & H2 & H3). destruct co as [cpt o]. cbn [snd] in Hk. unfold step.
+  assert (Hs : forall e, quiet_cells e -> forall b, o = OSetStrict b -> quiet_cells (set_strict b e)).
+  { intros e (A1 & A2 & A3) b Hb. subst o. destruct b; [|contradiction]. repeat split; auto. }
+  destruct cpt.
+  - pose proof (exec_P quiet_cells quiet_cells_report cap fmt
+                  (with_err (with_err g (clear_stderr (g_err g))) (capture_enter (g_err (with_err g (clear_stderr (g_err g)))))) o) as H.
+    cbn [with_err g_err] in H.
+    assert (Hq : quiet_cells (capture_enter (clear_stderr (g_err g)))) by (repeat split; auto).
+    specialize (H (Hs _ Hq) Hq).
+    destruct (exec cap fmt _ o) as [g1 v]. cbn [fst with_err g_err] in *.
+    destruct H as (A1 & A2 & A3). repeat split; auto.
+  - pose proof (exec_P quiet_cells quiet_cells_report cap fmt (with_err g (clear_stderr (g_err g))) o) as H.
+    cbn [with_err g_err] in H.
+    assert (Hq : quiet_cells (clear_stderr (g_err g))) by (repeat split; auto).
+    specialize (H (Hs _ Hq) Hq).
+    destruct (exec cap fmt _ o) as [g1 v]. cbn [fst] in *. exact H.
+Qed.
+
+Lemma run_errs0 cap fmt cos : Forall (fun co => keeps_strict (snd co)) cos -> g_err (final cap fmt G0 cos) = errs0.
+Proof.
+  intro Hk.
+  assert (Hgen : forall g, quiet_cells (g_err g) -> quiet_cells (g_err (final cap fmt g cos))).
+  { unfold final. induction cos as [|co r IH]; intros g Hq; cbn [run fst]; auto.
+    inversion Hk as [|? ? K1 K2]; subst.
+    pose proof (step_quiet_cells cap fmt g co K1 Hq) as H1.
+    destruct (step cap fmt g co) as [g1 out]. cbn [fst] in H1. specialize (IH K2 g1 H1).
+    destruct (run cap fmt g1 r) as [g2 outs]. exact IH. }
+  pose proof (Hgen G0 (conj eq_refl (conj eq_refl eq_refl))) as (A1 & A2 & A3).
+  pose proof (run_captured_none cap fmt cos G0 eq_refl) as A4.
+  destruct (g_err (final cap fmt G0 cos)) as [s c cp se]. cbn in *. subst. reflexivity.
+Qed.
+
+(* history independence of parsing, in the default reporting mode, with nothing left over *)
+Lemma parse_history_independent_strict_lemma cap fmt cos c macros files :
+  Forall (fun co => safe_op (snd co) /\ keeps_strict (snd co)) cos ->
+  snd (step cap fmt (final cap fmt G0 cos) (c, OParse macros files)) = snd (step cap fmt G0 (c, OParse macros files)).
+Proof.
+  intro H.
+  assert (H1 : Forall (fun co => safe_op (snd co)) cos) by (eapply Forall_impl; [|exact H]; intros a Ha; apply Ha).
+  assert (H2 : Forall (fun co => keeps_strict (snd co)) cos) by (eapply Forall_impl; [|exact H]; intros a Ha; apply Ha).
+  pose proof (parse_history_independent_lemma cap fmt cos c macros files H1) as Hp. cbv zeta in Hp.
+  rewrite Hp, (run_errs0 cap fmt cos H2). reflexivity.
+Qed.
